@@ -633,7 +633,8 @@ def _lint(ctx, prop):
         one, none_ = lint.rule_ONE1(ctx, files)
         aux1, naux1 = angles.rule_AUX1(ctx, files)
         cp2, ncp2 = lint.rule_CP2(ctx, files)
-        out += [sw, ov, n1, d3, cp, cp2, nb, zq, prt, tw, ang, one, aux1]
+        swp, nswp = lint.rule_SWP1(ctx, files)
+        out += [sw, ov, n1, d3, cp, cp2, nb, zq, prt, tw, ang, one, aux1, swp]
     return out
 
 
